@@ -34,7 +34,7 @@ FILLS_QUICK = [0x00, 0x06, 0x07, 0x0c, 0xff]
 FILLS_ALL = [0x00, 0xbe, 0x06, 0x07, 0x0c, 0x20, 0x22, 0x5c, 0xff]
 
 PROPS = {}
-PROPS["_libs"] = {"number_harness.cpp": "-lgmp"}
+PROPS["_libs"] = {"number_harness.cpp": "-lgmp", "toa_harness.cpp": "-lgmp"}
 
 # ------------------------------------------------------------------------------------------------ C01
 PROPS["C01"] = dict(
@@ -125,4 +125,40 @@ PROPS["C04"] = dict(
              "overflow_threshold", "near_power_of_two"],
     assumptions=["glibc strtod is correctly rounded (cross-checked against libstdc++ from_chars in stream oracle_selftest)",
                  "GMP integer arithmetic for the table audit"],
+)
+
+# ------------------------------------------------------------------------------------------------ C07
+PROPS["C07"] = dict(
+    title="Finite doubles print as the shortest round-tripping decimal",
+    rule=("doubles: all 2047 biased exponents x 14 significands (0,1,2,2^52-1,2^52-2,2^51, 8 random) both signs; subnormals 1..2000 "
+          "and random; integer-valued doubles below/at/beyond 2^53; 10^k +-3 ulp for k=-324..308 (all table entries, the 1e21 and "
+          "1e-6 format switches); 2^k +-2 ulp for every k; few-digit decimals at every decimal exponent; random floats widened; random "
+          "doubles; thorough: all 2^32 single-precision values. Each output: length<=32 in an exact 33-byte heap block (ASan), JSON "
+          "number grammar with fraction or exponent, strtod round trip, digits/exponent == std::to_chars shortest, first-principles "
+          "minimality/closeness via exact decimal expansion + GMP on a subset, library Parse round trip (kind and bits) on a subset; "
+          "GMP audit of all 617 Pow10CeilSig entries; distinct = bit pattern"),
+    runs=[
+        dict(name="prod-hsw", src="toa_harness.cpp", cfg="prod-hsw", env={}, args=["--prop", "C07", "--scale", "4"]),
+        dict(name="asan-hsw", src="toa_harness.cpp", cfg="asan-hsw", env=ASAN_ENV, args=["--prop", "C07"]),
+    ],
+    require=["doubles-printed", "class:subnormal", "format:scientific", "format:fixed", "first-principles-checks",
+             "library-parse-back-checks", "audit:pow10ceil-entries", "every_exponent", "powers_of_ten_neighbours"],
+    assumptions=["glibc strtod/printf are correctly rounded / exact", "libstdc++ std::to_chars(double) yields the shortest closest decimal "
+                 "(cross-checked by the first-principles subset)"],
+)
+
+# ------------------------------------------------------------------------------------------------ C08
+PROPS["C08"] = dict(
+    title="64-bit integers print as their exact decimal representation",
+    rule=("U64toa/I64toa vs snprintf: values below 10^8 with stride 97 (thorough: every value) and, for each, 10^8+x, 10^16+x, "
+          "10^16+x*10^8, x*10^8+(99999999-x) (both SSE kernels, both lanes) and -x; every 10^k and 2^k +-2; 64-bit extremes; random "
+          "values of every bit length; repeated-digit/carry patterns of 1..20 digits; a subset goes SetUint64/SetInt64 -> Dump -> "
+          "Parse and must come back with the same kind and value; exact 33-byte heap blocks under ASan; distinct = value"),
+    runs=[
+        dict(name="prod-hsw", src="toa_harness.cpp", cfg="prod-hsw", env={}, args=["--prop", "C08", "--scale", "4"]),
+        dict(name="asan-hsw", src="toa_harness.cpp", cfg="asan-hsw", env=ASAN_ENV, args=["--prop", "C08"]),
+        dict(name="prod-wsm", src="toa_harness.cpp", cfg="prod-wsm", env={}, args=["--prop", "C08"], tiers=("thorough",)),
+    ],
+    require=["u64-printed", "i64-printed", "integer-node-roundtrips", "below_1e8_stride", "digit_count_boundaries"],
+    assumptions=["glibc snprintf %llu/%lld"],
 )
